@@ -15,7 +15,7 @@
 (*   Exec(r, argv, env, items, cvd)   the executable ran on rank r and saw *)
 (*                         this argv / environment / cwd                   *)
 (*   RankExit(r, code)     exit code of rank r's exec script (MPI stand-in)*)
-(*   LaunchExit(code, out_at, err_at)  exit code of the launch script and, *)
+(*   LaunchExit(code, out_at, err_at, fail_at)  exit code of the launch script and, *)
 (*                         per rank, every file in which the text that     *)
 (*                         rank wrote to stdout / stderr was found         *)
 (* The trace also carries the task sandbox, the uid, the concrete names    *)
@@ -49,6 +49,7 @@ C == [ranks |-> T.cfg.ranks, lm |-> T.cfg.lm, fl |-> T.cfg.fl,
       prel  |-> T.cfg.prel, postl |-> T.cfg.postl, sync |-> T.cfg.sync,
       argv  |-> T.cfg.argv, env |-> T.cfg.env, envk |-> T.cfg.envk, nenv |-> T.cfg.nenv,
       omp   |-> T.cfg.omp, gq |-> T.cfg.gq, gtype |-> T.cfg.gtype, sto |-> T.cfg.sto,
+      sv    |-> T.cfg.sv, sval |-> T.cfg.sval, wr |-> T.cfg.wr,
       svc   |-> T.cfg.svc, cfgpre |-> T.cfg.cfgpre, prof |-> T.cfg.prof, out |-> T.cfg.out, err |-> T.cfg.err]
 FF  == {Exe(f.sig, f.i, f.r) : f \in SeqSet(T.F)}
 X   == LaunchRun(C, FF, T.xrc)                  \* the spec's observable for this run
@@ -70,8 +71,8 @@ WantOut == PathOf(X.out, T.names.out_rel, T.names.out_abs)
 WantErr == PathOf(X.err, T.names.err_rel, T.names.err_abs)
 
 \* the text rank i wrote is in the described file (missing) and nowhere else
-StreamErrs(at, want, missing, elsewhere) ==
-  E(want \in SeqSet(at), missing) \cup E(SeqSet(at) \subseteq {want}, elsewhere)
+StreamErrs(at, want, demanded, missing, elsewhere) ==
+  E(~demanded \/ want \in SeqSet(at), missing) \cup E(SeqSet(at) \subseteq {want}, elsewhere)
 
 Init ==
   /\ tid \in 1 .. Len(Traces)
@@ -121,7 +122,7 @@ Step ==
                /\ prefailed' = IF e.sig = "pre_exec" /\ Fails(FF, "pre_exec", e.i, r)
                                THEN prefailed \cup {r} ELSE prefailed
                /\ errs' = errs
-                    \cup E(r = L \/ e.rid = RankIdOf(C, r, C.fl), "C10.RankId")
+                    \cup E(r = L \/ (e.rid = r /\ e.rid = RankIdOf(C, r, ReadOrder(C.fl, FALSE))), "C10.RankId")
                     \cup E(e.who \in {-1, r}, "C10.PerRankOnly")
                     \cup E(~(e.sig = "pre_exec" /\ r \in seen), "C10.PreAfterExec")
                     \cup E(~(e.sig = "post_exec" /\ r \notin seen), "C10.PostBeforeExec")
@@ -137,7 +138,7 @@ Step ==
                /\ pos' = Advance(r, ExecMark)
                /\ seen' = seen \cup {r}
                /\ errs' = errs
-                    \cup E(e.rid = RankIdOf(C, r, C.fl), "C10.RankId")
+                    \cup E(e.rid = r /\ e.rid = RankIdOf(C, r, ReadOrder(C.fl, FALSE)), "C10.RankId")
                     \cup E(r \notin prefailed, "C10.FailedPreRanExec")
                     \cup E(r \notin seen, "C10.ExecTwice")
                     \cup OrderErrs(r, ExecMark, "C10.ExecUnexpected")
@@ -157,7 +158,7 @@ Step ==
           [] e.ev = "Ctrl" ->
                /\ reported' = reported \cup {e.r}
                /\ errs' = errs
-                    \cup E(e.r \notin Ranks(C) \/ e.rid = RankIdOf(C, e.r, C.fl), "C10.RankId")
+                    \cup E(e.r \notin Ranks(C) \/ e.rid = RankIdOf(C, e.r, ReadOrder(C.fl, FALSE)), "C10.RankId")
                     \cup E(C.sto, "C10.StartupUnexpected")
                     \cup E(e.r = 0, "C10.StartupNotRankZero")
                     \cup E(e.r \notin reported, "C10.StartupTwice")
@@ -183,9 +184,15 @@ Step ==
                           ELSE E(e.code # 0, "C10.LaunchFailureNotReported"))
                     \cup (IF X.launched
                           THEN UNION {IF X.ranks[i].execd /\ i <= Len(e.out_at) /\ i <= Len(e.err_at)
-                                      THEN StreamErrs(e.out_at[i], WantOut, "C10.Stdout", "C10.StdoutElsewhere")
-                                           \cup StreamErrs(e.err_at[i], WantErr, "C10.Stderr", "C10.StderrElsewhere")
+                                      THEN StreamErrs(e.out_at[i], WantOut, Demand(C).out,
+                                                      "C10.Stdout", "C10.StdoutElsewhere")
+                                           \cup StreamErrs(e.err_at[i], WantErr, Demand(C).err,
+                                                           "C10.Stderr", "C10.StderrElsewhere")
                                       ELSE {} : i \in 1 .. C.ranks}
+                               \* "<sig> failed" of rp_error is stderr text of the task, too
+                               \cup StreamErrs(e.fail_at, WantErr,
+                                               \E i \in 1 .. C.ranks : X.ranks[i].why \in {"pre", "post"},
+                                               "C10.StderrFailure", "C10.StderrElsewhere")
                           ELSE {})
                     \* td.startup_timeout: rank 0 reported that the task started
                     \cup (IF X.launched THEN E(X.ctrl \subseteq reported, "C10.StartupNotReported")
